@@ -120,6 +120,9 @@ pub enum Op {
     ImmutableUp,
     /// n new blocks
     BlocksUp(u8),
+    /// the chain rolls back n blocks (never below the start of the history)
+    #[serde(alias = "BlocksDown")]
+    BlocksDown(u8),
     Register { mask: u16, keygen: u8, when: RegEpoch },
     Sign(SignOp),
     /// make one open message of the current time point expire
@@ -139,6 +142,7 @@ impl Op {
             Op::EpochUp(n) => format!("E{n}"),
             Op::ImmutableUp => "I".into(),
             Op::BlocksUp(_) => "B".into(),
+            Op::BlocksDown(_) => "Bd".into(),
             Op::Register { when, .. } => match when {
                 RegEpoch::Current => "R".into(),
                 RegEpoch::Stale => "Rs".into(),
@@ -216,6 +220,7 @@ pub fn op_strategy_c14(n: u8) -> impl Strategy<Value = Op> {
         1 => Just(Op::EpochUp(1)),
         5 => Just(Op::ImmutableUp),
         3 => (5u8..=70).prop_map(Op::BlocksUp),
+        2 => (5u8..=70).prop_map(Op::BlocksDown),
         5 => (mask_strategy(n), prop_oneof![4 => Just(0u8), 1 => Just(1u8), 1 => Just(2u8)],
                prop_oneof![5 => Just(RegEpoch::Current), 3 => Just(RegEpoch::Stale), 1 => Just(RegEpoch::Ahead)])
             .prop_map(|(mask, keygen, when)| Op::Register { mask, keygen, when }),
@@ -557,6 +562,11 @@ impl Run {
                 self.world.immutable_up().await;
             }
             Op::BlocksUp(n) => self.world.blocks_up(*n as u64).await,
+            Op::BlocksDown(n) => {
+                if self.world.blocks_down(*n as u64).await {
+                    self.label("chain-rollback");
+                }
+            }
             Op::Register { mask, keygen, when } => self.do_register(*mask, *keygen, *when).await,
             Op::Sign(s) => self.do_sign(s).await,
             Op::Expire(i) => {
